@@ -1129,7 +1129,9 @@ def m_next(I, st, call):
         inner = I.read(st, it.place)
         if isinstance(inner, OpaqueV) and inner.get("iter") == "chars":
             call.args = [it] + list(call.args[1:])
-            return m_chars_next(I, st, call)
+            # (through a rule's instrumented reader, if one is installed)
+            fwd = I.extra_models.get("<core::str::iter::Chars<'a> as core::iter::traits::iterator::Iterator>::next") or m_chars_next
+            return fwd(I, st, call)
         ref, it = it, inner
     if getattr(I, "precise_chunks", False) and isinstance(it, OpaqueV) and it.get("iter") == "chunks" and isinstance(it.get("chunk"), Aff) \
             and isinstance(it.get("src_len"), Aff) and isinstance(ref, RefV) and not [a for a in it.attrs if a[0] == "adapt"]:
